@@ -24,6 +24,11 @@ func runC03(t *testing.T, c simrt.Chooser, o Opts) *Out {
 		flagIndex:  o.Index, // over a batch of >= 512 runs every TCP flag combination arrives unsolicited
 	}
 	sc := buildPacketScenario(p, o, k)
+	if p.pct("stdouterr", 12) {
+		// a write to stdout fails now and then (EAGAIN on a full non-blocking pipe): exactly the
+		// records of the failed writes may be missing, nothing else
+		sc.World.OutErrEvery = 2 + p.n("stdouterrevery", 9)
+	}
 	out := &Out{Scenario: sc, Stats: map[string]int{}}
 	cr := runPacketScenario(t, c, o, sc)
 	out.Res = &cr.Res
